@@ -17,6 +17,8 @@ package main
 //   c19.genpayload (secret ltpayload other)                         -> real GeneratePayload: (wellformed, tag = HMAC under the FULL
 //                                                                      secret computed here, accepted by a second server with the
 //                                                                      same secret, accepted by a server with secret `other`)
+//   c19.expire     (lifetime wait_ms)                               -> (CheckPayload CheckProof) of a payload from the real
+//                                                                      GeneratePayload presented wait_ms after it was issued
 //   c19.clock      (ltproof ltpayload dproof dpayload usegen)       -> CheckProof of an honest proof built at the
 //                                                                      real clock with timestamps now+d
 // The columns hmac, b64, boc, lib, ext, verify are oracle data for the model (computed here with
@@ -59,6 +61,7 @@ func init() {
 	execs["c19.clock"] = execC19Clock
 	execs["c19.hist"] = execC19Hist
 	execs["c19.genpayload"] = execC19GenPayload
+	execs["c19.expire"] = execC19Expire
 	gens["C19"] = genC19
 	gens["C19corpus"] = genC19Corpus
 }
@@ -417,17 +420,104 @@ func execC19GenPayload(in sx.V) sx.V {
 	l := in.List
 	secret, lt, other := string(l[0].Bytes), l[1].Int.Int64(), string(l[2].Bytes)
 	a := c19Server(c19Exec{}, secret, 0, lt)
+	eff := lt
+	if eff == 0 {
+		_, eff = a.VerifLifetimes()
+	}
+	t0 := time.Now()
 	p, err := a.GeneratePayload()
+	t1 := time.Now()
 	if err != nil {
 		return sx.A("err")
 	}
 	b, err := hex.DecodeString(p)
-	wf := err == nil && len(b) == 32 && p == strings.ToLower(p)
+	wf := err == nil && len(b) == 32 && p == strings.ToLower(p) && a.GetSecret() == secret
 	tag := wf && hmac.Equal(b[16:], c19Hmac(secret, b[:16])[:16])
 	self, _ := c19Server(c19Exec{}, secret, 0, lt).CheckPayload(p)
 	own, _ := a.CheckPayload(p)
 	foreign, _ := c19Server(c19Exec{}, other, 0, lt).CheckPayload(p)
-	return sx.L(sx.B(wf), sx.B(tag), sx.B(self && own), sx.B(foreign))
+	// the time field: CheckPayload accepts until stored+lifetime seconds.  Issued at t in [t0,t1] with
+	// lifetime L, a payload must stop being accepted no later than L s (+ L ns) after t1 and not
+	// earlier than L-1 s after t0 (the field is truncated to whole seconds)
+	notLong, notShort := false, false
+	if wf {
+		stored := new(big.Int).SetInt64(int64(binary.BigEndian.Uint64(b[8:16])))
+		giga := big.NewInt(1000000000)
+		L := big.NewInt(eff)
+		until := new(big.Int).Mul(new(big.Int).Add(stored, L), giga) // ns
+		life := new(big.Int).Mul(L, giga)
+		hi := new(big.Int).Add(big.NewInt(t1.UnixNano()), new(big.Int).Add(life, L))
+		lo := new(big.Int).Sub(new(big.Int).Add(big.NewInt(t0.UnixNano()), life), giga)
+		notLong = until.Cmp(hi) <= 0
+		notShort = until.Cmp(lo) > 0
+	}
+	return sx.L(sx.B(wf), sx.B(tag), sx.B(self && own), sx.B(foreign), sx.B(notLong), sx.B(notShort))
+}
+
+// c19.expire (lifetime wait_ms): a payload from the real GeneratePayload of a server with that payload
+// lifetime, presented wait_ms later to CheckPayload and (inside a fresh honest proof) to CheckProof
+// -> (payload-accepted proof-accepted).  The scenario sleeps; the generator starts all scenarios in
+// background goroutines at the beginning and collects them at the end.
+var c19Futures sync.Map // input text -> chan sx.V
+
+func c19Prestart(in sx.V) {
+	ch := make(chan sx.V, 1)
+	c19Futures.Store(in.String(), ch)
+	go func() {
+		defer func() {
+			if r := recover(); r != nil {
+				ch <- sx.A("panic")
+			}
+		}()
+		ch <- c19ExpireNow(in)
+	}()
+}
+
+func execC19Expire(in sx.V) sx.V {
+	if ch, ok := c19Futures.LoadAndDelete(in.String()); ok {
+		select {
+		case v := <-ch.(chan sx.V):
+			return v
+		case <-time.After(90 * time.Second):
+			return sx.L(sx.A("harness-error"), sx.A("timeout"))
+		}
+	}
+	return c19ExpireNow(in)
+}
+
+func c19ExpireNow(in sx.V) sx.V {
+	lt, wait := in.List[0].Int.Int64(), time.Duration(in.List[1].Int.Int64())*time.Millisecond
+	pub := c19ClockKey.Public().(ed25519.PublicKey)
+	st, err := wallet.GenerateStateInit(pub, wallet.V4R2, nil, 0, nil)
+	if err != nil {
+		return sx.L(sx.A("harness-error"), sx.A("stateinit"))
+	}
+	id, _ := wallet.GenerateWalletAddress(pub, wallet.V4R2, nil, 0, nil)
+	srv := c19Server(c19ExecFromSx(c19ExecKey(0, pub)), "expire secret", 0, lt)
+	life := time.Duration(lt) * time.Second
+	expectReject := wait > life
+	for attempt := 0; attempt < 4; attempt++ {
+		tg0 := time.Now()
+		payload, err := srv.GeneratePayload()
+		tg1 := time.Now()
+		if err != nil {
+			return sx.A("err")
+		}
+		time.Sleep(time.Until(tg1.Add(wait)))
+		okP, _ := srv.CheckPayload(payload)
+		tp, err := tonconnect.CreateSignedProof(payload, id, c19ClockKey, st, tonconnect.ProofOptions{Timestamp: time.Now(), Domain: "d"})
+		if err != nil {
+			return sx.A("err")
+		}
+		okC, _, _ := srv.CheckProof(context.Background(), tp, srv.CheckPayload, tonconnect.StaticDomain("d"))
+		tc1 := time.Now()
+		// the stored time is truncated to seconds: the measured age is at most 1 s above the real one
+		if !expectReject && tc1.Sub(tg0)+time.Second > life {
+			continue // too slow to be conclusive (machine under load): repeat
+		}
+		return sx.L(sx.B(okP), sx.B(okC))
+	}
+	return sx.L(sx.A("harness-error"), sx.A("inconclusive-timing"))
 }
 
 var c19ClockKey = ed25519.NewKeyFromSeed(sha256Sum("c19 clock key"))
@@ -834,8 +924,17 @@ func c19Emit(c *Ctx, class string, in sx.V, expectAccept bool, want []byte, key 
 	return out
 }
 
+// wall-clock scenarios: (payload lifetime s, wait ms, must the payload still be accepted)
+var c19ExpireCases = []struct {
+	lt, wait int64
+	accept   bool
+}{{1, 1300, false}, {2, 300, true}, {2, 2300, false}, {3, 1000, true}, {3, 3300, false}, {2, 3700, false}}
+
 func genC19(c *Ctx) {
 	r := c.R
+	for _, e := range c19ExpireCases { // run in the background while the other cases are generated
+		c19Prestart(sx.L(sx.Z(e.lt), sx.Z(e.wait)))
+	}
 	genC19Msg(c)
 	genC19Conv(c)
 	genC19Payload(c)
@@ -1113,6 +1212,17 @@ func genC19(c *Ctx) {
 	genC19Hist(c)
 	genC19Config(c)
 	genC19Clock(c)
+	for _, e := range c19ExpireCases {
+		in := sx.L(sx.Z(e.lt), sx.Z(e.wait))
+		cls := "expired"
+		if e.accept {
+			cls = "alive"
+		}
+		out := c.Emit("c19.expire", in, cls)
+		if out.String() != sx.L(sx.B(e.accept), sx.B(e.accept)).String() {
+			c.Fail("c19.expire", in, "payload-lifetime", fmt.Sprintf("payload with lifetime %d s presented %d ms after GeneratePayload: got %s", e.lt, e.wait, out.String()))
+		}
+	}
 }
 
 // server configuration as part of the quantifier: secrets of every length class with siblings that
@@ -1135,7 +1245,7 @@ func genC19Config(c *Ctx) {
 				lt := []int64{0, 300, 3600, 9223372036}[r.Intn(4)] // larger values overflow time.Duration
 				in := sx.L(sx.Str(secret), sx.Z(lt), sx.Str(o.s))
 				out := c.Emit("c19.genpayload", in, "genpayload|"+o.name+"|long="+fmt.Sprint(len(secret) > 64))
-				want := sx.L(sx.B(true), sx.B(true), sx.B(true), sx.B(c19SameKey(o.s, secret))).String()
+				want := sx.L(sx.B(true), sx.B(true), sx.B(true), sx.B(c19SameKey(o.s, secret)), sx.B(true), sx.B(true)).String()
 				if out.String() != want {
 					c.Fail("c19.genpayload", in, "genpayload", "GeneratePayload/CheckPayload do not use the full secret: got "+out.String()+" want "+want+" ("+o.name+")")
 				}
@@ -1518,6 +1628,8 @@ func genC19Corpus(c *Ctx) {
 		c.Emit("c19.payload", sx.L(sx.Str(long), sx.Z(0), sx.Z(c19Now*1e9+500000000), sx.Str(pl), c19HmacOracle(long, pl)), "corpus|long-secret")
 		c.Emit("c19.genpayload", sx.L(sx.Str(long), sx.Z(0), sx.Str(o)), "corpus|long-secret")
 	}
+	// a generated payload with lifetime 2 s presented 2.3 s later must be rejected (lifetime counted once)
+	c.Emit("c19.expire", sx.L(sx.Z(2), sx.Z(2300)), "corpus|expired")
 }
 
 // ---------------------------------------------------------------- histories on one Server
